@@ -92,15 +92,35 @@ def run(cmd, cwd=None, env=None, timeout=None, input=None, check=True):
 _gen_bin = {}
 
 
+def alt_tag():
+    """'' for /repo; a short tag when VERIF_REPO points at another checkout (seeded-change runs)"""
+    return "" if REPO == "/repo" else "-alt" + sha(REPO)[:6]
+
+
+def harness_dir():
+    """The harness workspace; for an alternative checkout a copy with the path dependency rewritten."""
+    if REPO == "/repo":
+        return HARNESS
+    d = os.path.join(WORK, "harness" + alt_tag())
+    shutil.rmtree(d, ignore_errors=True)
+    shutil.copytree(HARNESS, d, ignore=shutil.ignore_patterns("subj-template"))
+    for f in ("gen/Cargo.toml",):
+        p = os.path.join(d, f)
+        t = open(p).read().replace('"/repo/', '"%s/' % REPO)
+        with open(p, "w") as fh:
+            fh.write(t)
+    return d
+
+
 def build_gen(features=()):
     key = tuple(features)
     if key in _gen_bin:
         return _gen_bin[key]
-    tdir = os.path.join(WORK, "target" + ("-" + "-".join(features) if features else ""))
+    tdir = os.path.join(WORK, "target" + alt_tag() + ("-" + "-".join(features) if features else ""))
     cmd = ["cargo", "build", "-p", "gen", "--offline", "--target-dir", tdir]
     if features:
         cmd += ["--features", ",".join(features)]
-    run(cmd, cwd=HARNESS, timeout=1800)
+    run(cmd, cwd=harness_dir(), timeout=1800)
     b = os.path.join(tdir, "debug", "gen")
     if not os.path.exists(b):
         raise ToolError("gen binary missing")
@@ -189,13 +209,17 @@ def build_subjects(metas, cfgs, name, extra_src="", template="subj-template", pa
     if not os.path.exists(os.path.join(crate, "Cargo.toml")):
         shutil.rmtree(crate, ignore_errors=True)
         shutil.copytree(tdir_src, crate)
+        ct = os.path.join(crate, "Cargo.toml")
+        ct_text = open(ct).read().replace('path = "/repo"', 'path = "%s"' % REPO)
+        with open(ct, "w") as fh:
+            fh.write(ct_text)
         shutil.copy(os.path.join(REPO, "Cargo.lock"), os.path.join(crate, "Cargo.lock"))
     with open(os.path.join(crate, "src", "defs.rs"), "w") as f:
         f.write(src)
     procs = []
     for c in todo:
         feats, release = CFGS[c]
-        tdir = os.path.join(WORK, "target-subj-" + c)
+        tdir = os.path.join(WORK, "target-subj-" + c + alt_tag())
         cmd = ["cargo", "build", "--offline", "--target-dir", tdir]
         if feats:
             cmd += ["--features", ",".join(feats)]
@@ -324,7 +348,8 @@ def finish(prop, tier, seed, level, coverage, violations, t0, assumptions=(), dr
     """violations: list of dicts with at least 'key' (specific failing case) and 'what'.
     Writes evidence, replay files, prints verdict lines and exits."""
     known = [k for k in known_findings() if k["prop"] == prop]
-    os.makedirs(os.path.join(VERIF, "evidence"), exist_ok=True)
+    edir = os.environ.get("VERIF_EVIDENCE_DIR", os.path.join(VERIF, "evidence"))
+    os.makedirs(edir, exist_ok=True)
     new = []
     seen_known = {}
     for v in violations:
@@ -344,7 +369,7 @@ def finish(prop, tier, seed, level, coverage, violations, t0, assumptions=(), dr
         "known_findings_seen": sorted(seen_known.keys()),
         "tree": repo_hash(),
     }
-    with open(os.path.join(VERIF, "evidence", prop + ".json"), "w") as f:
+    with open(os.path.join(edir, prop + ".json"), "w") as f:
         json.dump(ev, f, indent=1, sort_keys=True)
     if new:
         rdir = os.path.join(VERIF, "work", "replay")
